@@ -112,7 +112,7 @@ def run(ctx):
             ctx.violation('a fully signed standard transaction does not parse back', {'op': 'roundtrip', 'error': repr(e)[:120], 'raw': raw.hex(), **info})
         for vname, base in variants:
             tampers = ['out_value', 'out_script', 'prev_txid', 'output_n', 'sequence', 'locktime', 'version', 'version_bytes', 'in_value', 'sig_corrupt',
-                       'sig_foreign', 'sig_drop', 'sig_hashtype', 'prev_txid_zero', 'sig_hashtype_other']
+                       'sig_foreign', 'sig_drop', 'sig_hashtype', 'prev_txid_zero', 'sig_hashtype_other', 'version_raw', 'locktime_raw']
             for tm in (tampers if T else rng.sample(tampers[:13], 5) + tampers[13:]):
                 tt = copy.deepcopy(base)
                 i = rng.randrange(len(tt.inputs))
@@ -145,6 +145,19 @@ def run(ctx):
                             expect = 'valid'          # a legacy digest does not commit to the amount
                         # the network uses the real amount: the serialisation is unchanged and stays valid there
                         po2 = None
+                    elif tm in ('version_raw', 'locktime_raw'):
+                        # the field is changed in the bytes a receiver gets - to the values a reader may be tempted to "normalise" (0, 1, 2)
+                        braw = raw_of(base)
+                        cur_ = braw[:4] if tm == 'version_raw' else braw[-4:]
+                        new_ = rng.choice([v_ for v_ in (b'\x00\x00\x00\x00', b'\x01\x00\x00\x00', b'\x02\x00\x00\x00', b'\xff\xff\xff\xff') if v_ != cur_][:3])
+                        braw2 = (new_ + braw[4:]) if tm == 'version_raw' else (braw[:-4] + new_)
+                        tt = Transaction.parse_bytes(braw2, strict=False)
+                        for j, mm in enumerate(d['meta']):
+                            tt.inputs[j].value = mm['val']
+                            if mm['kind'] == 'p2pk':
+                                tt.inputs[j].keys = list(mm['keys'])
+                                tt.inputs[j].script_type = 'signature'
+                                tt.inputs[j].update_scripts()
                     elif tm == 'prev_txid_zero':
                         # the outpoint's transaction id replaced by zeros in the bytes a receiver gets (the output number stays, so this is
                         # not the null outpoint of a coinbase transaction)
